@@ -113,7 +113,7 @@ func (w *c15World) kickObserve(ctx sdk.Context, app uint64) c15KickObs {
 	return o
 }
 
-func c15KickCampaign(t0 *c15World) {
+func c15KickCampaign(t0 *c15World, ks int) {
 	tr := t0.tr
 	blk := c15Find("liquidationsV2.BeginBlocker")
 	for _, modes := range [][]int{{1, 2}, {2, 1}, {0, 2}, {2, 2}, {1, 1}} {
@@ -159,6 +159,32 @@ func c15KickCampaign(t0 *c15World) {
 				break
 			}
 			st = r.ctx.WithBlockTime(r.ctx.BlockTime().Add(6 * time.Second)).WithBlockHeight(r.ctx.BlockHeight() + 1)
+		}
+		if modes[0] == 2 && modes[1] == 2 {
+			// both surplus auctions (English) are running: a bid on the first one, then the auction pass of x/auctionsV2 while they
+			// are open and after they have ended (close with a bid / restart without)
+			w.ctx = st
+			bidder := c15Addr(450)
+			w.fund(bidder, "uharbor", 10000000)
+			for _, a := range w.app.NewaucKeeper.GetAuctions(w.ctx) {
+				if !a.AuctionType {
+					if err := w.deliver(aucv2types.NewMsgPlaceMarketBid(bidder.String(), a.AuctionId, sdk.NewCoin("uharbor", sdk.NewInt(1000000)))); err == nil {
+						tr.Count("fixture:v2.english-bid")
+					} else {
+						tr.Count("fixture:v2.english-bid-rejected")
+					}
+					break
+				}
+			}
+			pass := []c15Blocker{c15Find("auctionsV2.BeginBlocker"), c15Find("liquidationsV2.BeginBlocker")}
+			w.campaign("kick.english-open", w.ctx, pass, ks)
+			w.advance(3700, 600)
+			w.campaign("kick.english-ended", w.ctx, pass, ks)
+			for _, e := range c15Envs() {
+				st2, _ := w.ctx.CacheContext()
+				e.prep(w, st2)
+				w.envRun("kick.english-ended+"+e.name, st2, "1")
+			}
 		}
 		t0.panics = append(t0.panics, w.panics...)
 	}
